@@ -443,4 +443,13 @@ def write_evidence(ctx, a, units, builds, results, diffres, violations, known_hi
 
 
 if __name__ == '__main__':
-    main()
+    try:
+        rc = main()
+    except SystemExit:
+        raise
+    except BaseException as e:   # an internal error of the machinery is never a verdict about the code: exit 2 (BROKEN), not 1
+        import traceback
+        traceback.print_exc()
+        print('BROKEN internal error of the checker: %s: %s' % (type(e).__name__, e))
+        sys.exit(2)
+    sys.exit(rc if isinstance(rc, int) else 0)
